@@ -106,6 +106,7 @@ class CFG:
         self.named_lambdas: Dict[str, C.Lambda] = {}
         self.inline_named_lambdas = inline_named_lambdas
         self._collect_aliases(fa.body)
+        self.flags = self._collect_flags(fa.body)
         self.entry = self._new("entry").id
         self.exit = self._new("exit").id
         self.exc_exit = self._new("exc_exit").id
@@ -132,6 +133,31 @@ class CFG:
                         self.canon.aliases[d.name] = self.canon(init)
                     elif d.bindings is None and isinstance(d.init, C.Lambda):
                         self.named_lambdas[d.name] = d.init
+
+    def _collect_flags(self, body: C.Node) -> Set[str]:
+        """Local bool variables that are only ever assigned the literals true/false (constant-propagated by Flow)."""
+        cand: Dict[str, int] = {}
+        bad: Set[str] = set()
+        for n in body.walk():
+            if isinstance(n, C.Decl) and "bool" in n.type.split() and "&" not in n.type and "*" not in n.type:
+                for d in n.decls:
+                    init = d.init
+                    if isinstance(init, C.Init) and init.type is None and len(init.elems) == 1:
+                        init = init.elems[0]
+                    if isinstance(init, C.Lit) and init.text in ("true", "false"):
+                        cand[d.name] = cand.get(d.name, 0) + 1
+                    else:
+                        bad.add(d.name)
+        for n in body.walk():
+            if isinstance(n, C.Binary) and n.op in C._ASSIGN and isinstance(n.l, C.Id) and n.l.name in cand:
+                if not (n.op == "=" and isinstance(n.r, C.Lit) and n.r.text in ("true", "false")):
+                    bad.add(n.l.name)
+            elif isinstance(n, C.Unary) and n.op == "&" and isinstance(n.e, C.Id) and n.e.name in cand:
+                bad.add(n.e.name)
+            elif isinstance(n, C.Call):
+                # passed by (possibly non-const) reference to an unknown callee: stay conservative only for out-params
+                pass
+        return {k for k, v in cand.items() if v == 1 and k not in bad}
 
     def _new(self, kind: str, label: str = "", ast: Optional[C.Node] = None, ctx: Optional[Ctx] = None) -> N:
         n = N(len(self.nodes), kind, label, ast, self.fa.line(ast) if ast is not None else 0)
@@ -316,6 +342,7 @@ class CFG:
             o = self._run_lambda((lam_args or named)[0], outs, ctx, region=(ctx.region + f"/{name}").strip("/"))
             n = self._new("call", self.canon(e), e, ctx)
             n.callee, n.name = callee, name
+            n.args = tuple(self.canon(a) for a in e.args)
             self._connect(o, n.id)
             n.succ.append((ctx.eh, "eh"))
             return [(n.id, "next")]
@@ -719,6 +746,11 @@ class Flow:
             out_rel = rel | {n.guard}
         elif n.effect == "arm" and n.guard:
             out_rel = rel - {n.guard}
+        flags = self.cfg.flags
+        if flags and n.kind in ("stmt", "decl"):
+            for l, r in n.stores:
+                if l in flags and r in ("true", "false"):
+                    out_rel = frozenset(x for x in out_rel if not x.startswith(f"flag:{l}=")) | {f"flag:{l}={r}"}
         res = []
         for tgt, lab in n.succ:
             if lab.startswith("armed:"):
@@ -726,6 +758,11 @@ class Flow:
                     continue
             elif lab.startswith("released:"):
                 if lab[9:] not in rel:
+                    continue
+            elif n.kind == "cond" and lab in ("T", "F") and n.label in flags:
+                if f"flag:{n.label}=true" in rel and lab == "F":
+                    continue
+                if f"flag:{n.label}=false" in rel and lab == "T":
                     continue
             res.append(((tgt, out_rel), lab))
         return res
@@ -754,7 +791,8 @@ class Flow:
 
     def reach(self, sources: Iterable[State], *, avoid: Callable[[N], bool] = lambda n: False,
               targets: Callable[[N], bool], labels_skip: Sequence[str] = (), after_source: bool = True,
-              edge_skip: Optional[Callable[[N, str], bool]] = None) -> Optional[List[State]]:
+              edge_skip: Optional[Callable[[N, str], bool]] = None,
+              first_edge: Optional[Callable[[str], bool]] = None) -> Optional[List[State]]:
         """Is a target state reachable from any source without passing an avoided node?  Returns a witness path.
 
         after_source: start from the successors of the sources (the source node itself is not tested).
@@ -766,6 +804,8 @@ class Flow:
             if after_source:
                 for t, lab in self.succ.get(s, []):
                     if any(lab.startswith(x) for x in labels_skip):
+                        continue
+                    if first_edge is not None and not first_edge(lab):
                         continue
                     if t not in parent:
                         parent[t] = s
@@ -813,7 +853,7 @@ class Flow:
         return self.reach([self.start], avoid=a, targets=b, after_source=False)
 
     def must_follow(self, a: Callable[[N], bool], b: Callable[[N], bool], *, exits: str = "normal",
-                    ) -> Optional[List[State]]:
+                    first_edge: Optional[Callable[[str], bool]] = None) -> Optional[List[State]]:
         """Every path from a to an exit passes b. exits: 'normal' | 'all' | 'exc'."""
         cfg = self.cfg
         if exits == "normal":
@@ -824,7 +864,7 @@ class Flow:
             tgt = lambda n: n.id in (cfg.exit, cfg.exc_exit)
         srcs = self.states_of(a)
         skip = ("eh",) if exits == "normal" else ()
-        return self.reach(srcs, avoid=b, targets=tgt, labels_skip=())
+        return self.reach(srcs, avoid=b, targets=tgt, labels_skip=(), first_edge=first_edge)
 
     def count_on_paths(self, a: Callable[[N], bool]) -> int:
         return len(self.nodes_of(a))
